@@ -247,6 +247,20 @@ def import_names(F, rep):
                        "%s: whether an occupied name is a collision is decided by comparing the existing entry with the entry being "
                        "inserted (`occ.get() != &to_insert`), so a second import is tolerated only when it denotes the same thing" % v,
                        line_of(arm))
+    # ... and "the same thing" is the same module, wherever the import is written: an entry for a namespace carries the span
+    # of the `use` that created it, so a comparison that includes the span makes a second `use b` (or an explicit `use math`,
+    # which the prelude has already written into every file) a collision of b with itself
+    adt = F.adt(NR + "Name")
+    ns_fields = [f["ty"] for v_ in adt["variants"] if v_["name"] == "Namespace" for f in v_["fields"]]
+    has_span = any("Span" in t for t in ns_fields)
+    impls = [i for i in F.crates["sylt_compiler"]["impls"] if i["self_ty"].endswith("name_resolution::Name") and (i["trait"] or "").endswith("PartialEq")]
+    derived = bool(impls) and all(i.get("derived") for i in impls)
+    rep.ob("COLLISION", "Name|equality-ignores-the-import-site", bool(impls) and not (derived and has_span),
+           "two entries for the same module are equal wherever they were imported (%s)" % (
+               "Namespace carries no span" if not has_span else "PartialEq for Name is written by hand") if impls and not (derived and has_span) else
+           "Name::Namespace carries the span of the import and Name's equality is the derived one: importing the same module twice "
+           "(`use b` / `use b`, or `use math`, which the prelude already wrote into the file) is reported as a name collision - for "
+           "`use math` inside the standard library preamble", adt.get("sp"))
     # parser side: alias vs implicit name
     st = F.fn(P + "statement::statement")
     txt = pp(fn_body(st))
